@@ -1124,10 +1124,23 @@ fn run_history(h: &Hist, lean: &mut Lean, prop: &str) -> Outcome {
             // recovery: no matching issue for 20 reliability half-lives ⇒ the penalty is gone
             if matches!(op, OpSpec::Maintain { .. } | OpSpec::Deliver { .. }) {
                 for e in &c {
+                    // "the path" is what the implementation keys its cache and reliability scores by: the data-plane
+                    // fingerprint (source, destination, interface ids of the hop fields - no AS numbers). In a real
+                    // topology an interface id of an AS names one link, so the fingerprint fixes the AS sequence; the
+                    // random route universes of this harness are not bound to one topology and may hold two routes
+                    // with the same interface ids through different ASes (one fingerprint, one cache entry whose
+                    // `path` is the last one fetched, one score). An issue matches the entry when it matches ANY route
+                    // delivered under this fingerprint, not only the copy the entry holds right now
+                    // (corpus 020-recovery-fingerprint-shared-by-two-routes).
+                    let aliases: Vec<&ScionPath> = delivered.iter().filter(|d| d.fingerprint() == e.path.fingerprint() && **d != e.path).collect();
+                    let hits = |k: &KindSpec| kind_matches(k, &e.path) || aliases.iter().any(|d| kind_matches(k, d));
                     // issues still queued or cached are applied when ingested / when the path is first fetched
-                    let recent = issue_log.iter().any(|(k, t)| kind_matches(k, &e.path) && now.saturating_sub(*t) < 1800 * NS)
-                        || pend.iter().any(|k| kind_matches(k, &e.path))
-                        || h.ops[..=idx].iter().any(|o| matches!(o, OpSpec::Report { kind, ts } if kind_matches(kind, &e.path) && (now.saturating_sub(*ts) < 1800 * NS || *ts > now)));
+                    let recent = issue_log.iter().any(|(k, t)| hits(k) && now.saturating_sub(*t) < 1800 * NS)
+                        || pend.iter().any(|k| hits(k))
+                        || h.ops[..=idx].iter().any(|o| matches!(o, OpSpec::Report { kind, ts } if hits(kind) && (now.saturating_sub(*ts) < 1800 * NS || *ts > now)));
+                    if !recent && aliases.iter().any(|d| d.metadata().and_then(|m| m.interfaces.as_ref()) != e.path.metadata().and_then(|m| m.interfaces.as_ref())) {
+                        out.labels.push("recovery judged for a cache entry whose fingerprint is shared by routes through different ASes".into());
+                    }
                     if !recent {
                         let hops = e.path.metadata().and_then(|m| m.interfaces.as_ref()).map(|v| v.len() / 2 + 1);
                         if let Some(hops) = hops {
